@@ -816,9 +816,11 @@ func coordinatorMain() int {
 }
 
 func workerTimeout(runs int, race bool) time.Duration {
-	d := 120*time.Second + time.Duration(runs)*20*time.Millisecond
+	// generous: the machine may be shared with other runs; a worker that is
+	// really stuck in a loop without yields is still found, just later
+	d := 900*time.Second + time.Duration(runs)*100*time.Millisecond
 	if race {
-		d += time.Duration(runs) * 100 * time.Millisecond
+		d += time.Duration(runs) * 400 * time.Millisecond
 	}
 	return d
 }
@@ -866,7 +868,18 @@ func replayMain(path string) int {
 	}
 	fmt.Printf("replay %s property=%s steps=%d switches=%d hash=%x\n", path, c.Prop, cr.out.Stats.Yields+cr.out.DefSt.Yields, cr.out.Stats.Switches, cr.out.Stats.Hash^cr.out.DefSt.Hash)
 	for _, r := range cr.out.all() {
-		fmt.Printf("  op %d task %d %s %q set=%d -> out=%q err=%q class=%s panic=%q fired=%v probes=%v\n", r.OpID, r.Task, r.Kind, r.Target, c.opByID(r.OpID).Set, clipN(string(r.Out), 200), clipN(r.Err, 200), r.ErrClass, clipN(r.Panic, 100), r.Fired, r.Probes)
+		op := c.opByID(r.OpID)
+		if op == nil {
+			fmt.Printf("  (operation not reached: the run was aborted)\n")
+			continue
+		}
+		state := ""
+		if r.Aborted != "" {
+			state = " ABORTED(" + r.Aborted + ")"
+		} else if !r.Done {
+			state = " NOT-FINISHED"
+		}
+		fmt.Printf("  op %d task %d %s %q set=%d ->%s out=%q err=%q class=%s panic=%q fired=%v probes=%v\n", r.OpID, r.Task, r.Kind, r.Target, op.Set, state, clipN(string(r.Out), 200), clipN(r.Err, 200), r.ErrClass, clipN(r.Panic, 100), r.Fired, r.Probes)
 	}
 	rc := 0
 	abs, _ := filepath.Abs(path)
